@@ -60,6 +60,47 @@ CHECKS["C09"] = dict(
          "independent parser), payloads compared as digests.",
 )
 
+CHECKS["C14"] = dict(
+    text=("Machine-checked refinement theorems (Coq) over a Gallina state-machine model of suds.properties "
+          "(Properties/Link/Endpoint/Skin, provider lookup, __set with validate->nvl->store->linker), "
+          "suds.options.TpLinker and Client.clone: for operation histories of ANY length every read returns the "
+          "last value assigned (default after None), invalid assignments have no effect, the client is linked to "
+          "exactly its current transport's options, clones are independent both ways. The option definition "
+          "tables are regenerated from Options() instances of /repo on every run and proved equal to the "
+          "documented ones. ~3.7k histories per quick run (exhaustive short + random to length 30) are replayed "
+          "on real clients and compared step by step inside Coq. The 'transport options follow a replaced "
+          "transport' clause is false of the code: refuted with a witness (known finding), proved in guarded form."),
+    design="DESIGN.md §5 C14",
+    technique="Coq refinement proof (fold over histories) + in-Coq differential correspondence",
+    note="Python's attribute protocol and copy.deepcopy are covered by correspondence only.",
+)
+CHECKS["C16"] = dict(
+    text=("Machine-checked theorems (Coq) over a Gallina model of PluginContainer/PluginDomain/Method dispatch and "
+          "the five message-hook call sites of _SoapClient.send/process_reply plus the document/init hooks: for "
+          "plugin lists of ANY length the hook log is exactly the reached stages in the fixed order, each once per "
+          "matching plugin in registration order; every stage consumes the previous stage's edits (dataflow); no "
+          "reply hooks without a reply, no unmarshalled for a fault; a hook exception reaches the caller. ~3.7k "
+          "(plugin list, settings, reply class) cases per quick run are executed on real clients with "
+          "order-revealing edits and compared with the model inside Coq."),
+    design="DESIGN.md §5 C16",
+    technique="Coq proof by induction over plugin lists + in-Coq differential correspondence",
+    note="Which documents the loader opens is taken from a recording store/cache (C12 covers the loader).",
+)
+CHECKS["C17"] = dict(
+    text=("Machine-checked theorems (Coq) over a Gallina model of Binding.headercontent/mkheader (positional loop "
+          "with break, dict lookup, deepcopy of caller elements, setPrefix) and suds.wsse token rendering, reusing "
+          "the C01 marshaller theorem for each entry: under an explicit guard the Header holds exactly the "
+          "configured entries marshalled per their schema and qualified by their own namespace, caller objects are "
+          "never altered, repeating a call sends the same headers, one Security element carries every token, "
+          "timestamps read back as the same instant (via the C06 dateTime round trip). Five departures of the "
+          "unchanged code are refuted with witnesses and listed as known findings. ~600 cases / 1100 calls per "
+          "quick run compared with model and reference inside Coq."),
+    design="DESIGN.md §5 C17",
+    technique="Coq proof (structural walk over declared parts, reuse of C01/C06 theorems) + correspondence",
+    note="Header part resolution in wsdl.py, prefix assignment and nonce/created generation are covered by "
+         "correspondence only (shape checks for random/time-dependent fields).",
+)
+
 PENDING = {}
 
 
